@@ -515,7 +515,7 @@ var (
 	flagWorker  = flag.Bool("worker", false, "internal: run as the real-code worker process")
 	flagWDir    = flag.String("wdir", "", "internal: worker scratch directory")
 	flagCap     = flag.Uint64("cap", 3<<30, "worker address-space cap in bytes (RLIMIT_AS)")
-	flagNoModel = flag.Bool("nomodel", false, "exploration: skip the model comparison")
+	flagNoModel = flag.Bool("skipmodel", false, "exploration: skip the model comparison")
 	flagPar     = flag.Int("par", 6, "number of worker processes")
 	flagOnly    = flag.String("only", "", "comma-separated base kinds to run (default all)")
 )
